@@ -122,6 +122,9 @@ def _job(args):
     h = api.REGISTRY["harness"][hidx]
     try:
         sys.setrecursionlimit(10000)
+        budget = opts.pop("case_budget_s", None)
+        if budget:
+            opts["deadline"] = time.time() + budget      # a case that explodes (typical on a broken tree) ends as UNDECIDED, not as a hang
         return hidx, cidx, run_case(h, h.cases[cidx], **opts)
     except Exception:
         return hidx, cidx, {"harness": h.name, "case": repr(h.cases[cidx]), "paths": 0, "obligations": [],
@@ -141,7 +144,7 @@ def run_property(prop, tier="quick", jobs=None, only=None, timeout_ms=None):
     for i, h in hs:
         for c in range(len(h.cases)):
             t = timeout_ms or (h.timeout or (10000 if tier == "quick" else 60000))
-            tasks.append((i, c, {"timeout_ms": t, "want_smt2": True}))
+            tasks.append((i, c, {"timeout_ms": t, "want_smt2": True, "case_budget_s": 240 if tier == "quick" else 1800}))
     jobs = jobs or min(16, max(1, len(tasks)))
     results = []
     if jobs == 1 or len(tasks) <= 1:
